@@ -248,7 +248,8 @@ def classify(A):
 
 def gen_rhs(rng, n, shape_kind, cplx):
     """integer right-hand sides: 'vec' (n,), 'col' (n,1), 'blk' (n,k) with linearly dependent columns,
-    'wide' (n, n+1) (necessarily dependent), 'zero' block containing a zero column"""
+    'wide' (n, n+1) (necessarily dependent), 'zero' block containing a zero column,
+    'cdep' / 'idup' columns that depend on each other through non-real coefficients (need cplx=True)"""
     def col():
         v = np.array([complex(rng.randint(-5, 5), rng.randint(-5, 5)) if cplx else rng.randint(-5, 5) for _ in range(n)])
         if not np.any(v):
@@ -271,8 +272,16 @@ def gen_rhs(rng, n, shape_kind, cplx):
     elif shape_kind == 'zero':
         c0 = col()
         b = np.stack([c0, np.zeros_like(c0), -c0], axis=1)
+    elif shape_kind == 'cdep':      # third column depends on the others through NON-REAL coefficients (complex only)
+        c0, c1 = col(), col()
+        b = np.stack([c0, c1, (1 + 2j) * c0 - 1j * c1], axis=1)
+    elif shape_kind == 'idup':      # second column = i * first column (complex only)
+        c0 = col()
+        b = np.stack([c0, 1j * c0], axis=1)
     else:
         raise ValueError(shape_kind)
+    if shape_kind in ('cdep', 'idup') and not cplx:
+        raise ValueError(shape_kind + ' needs a complex right-hand side')
     return b.astype(complex if cplx else float)
 
 
